@@ -62,3 +62,43 @@ for _cid, _file, _fn in (("C17.merge_consecutive.get_remove_groups", "merge_cons
                          ("C17.split_rows.add_durations", "split_rows_op.py", "SplitRowsOp._add_durations"),
                          ("C17.split_rows.create_onsets", "split_rows_op.py", "SplitRowsOp._create_onsets")):
     contract(_cid, file="hed/tools/remodeling/operations/" + _file, func=_fn, inline=True, trusted=True, unwind="havoc")
+
+# ---- the pipeline: 'n/a' <-> NaN conversion around EVERY step (typestate of the table as ghost `stage`:
+#      0 = text form (n/a as text: as read / after post_proc_data), 1 = prepared (NaN form), 2 = raw output of an operation)
+from pyvc.contract import EXTERNS
+class_model("RemodelOp", {})
+class_model("DispatcherM", {"parsed_ops": "List[RemodelOp]"})
+try:
+    import z3
+    from pyvc.vals import SV, INT, Opaque
+
+    def _stage(interp):
+        return interp.ctx.term(interp.ctx.ghost["stage"], INT)
+
+    def _prep(interp, args, kwargs):
+        interp.ctx.oblige("call-pre", "prep_data.on_text_form", _stage(interp) == 0, info={"callee": "Dispatcher.prep_data"})
+        interp.ctx.ghost["stage"] = SV(INT, z3.IntVal(1))
+        return Opaque("prepared df", fresh=True)
+
+    def _do_op(interp, args, kwargs):
+        interp.ctx.oblige("call-pre", "do_op.on_prepared_table", _stage(interp) == 1, info={"callee": "BaseOp.do_op"})
+        interp.ctx.ghost["stage"] = SV(INT, z3.IntVal(2))
+        return Opaque("op output", fresh=True)
+
+    def _post(interp, args, kwargs):
+        interp.ctx.oblige("call-pre", "post_proc_data.on_operation_output", _stage(interp) == 2, info={"callee": "Dispatcher.post_proc_data"})
+        interp.ctx.ghost["stage"] = SV(INT, z3.IntVal(0))
+        return Opaque("text df", fresh=True)
+    EXTERNS["DispatcherM.prep_data"] = _prep
+    EXTERNS["DispatcherM.post_proc_data"] = _post
+    EXTERNS["RemodelOp.do_op"] = _do_op
+    EXTERNS["DispatcherM.get_data_file"] = lambda interp, args, kwargs: Opaque("data file", fresh=True)
+except ImportError:
+    pass
+
+contract("C17.run_operations", file="hed/tools/remodeling/dispatcher.py", func="Dispatcher.run_operations",
+         params={"self": "DispatcherM", "file_path": "Opaque", "sidecar": "Opaque", "verbose": "Bool"}, returns="Opaque", enc="native",
+         self_class="DispatcherM", ghost={"init": {"stage": "0"}},
+         ensures={"C17.pipeline.result_in_text_form": "stage == 0"},
+         loops={0: {"ghost": {"stage": "Int"}, "invariant": ["stage == 0"]}},
+         assume=["prep_data / post_proc_data / do_op modelled as typestate transitions of the table (text form -> NaN form -> operation output -> text form)"])
